@@ -18,17 +18,23 @@ THOROUGH = [("MC_Hls_t_round.cfg", None), ("MC_Hls_t_ring.cfg", 6000), ("MC_Hls_
             ("MC_Hls_t_decide2.cfg", 4000), ("MC_Hls_t_restart.cfg", 3000)]
 
 
-def signature(why):
+def signatures(why):
+    """One signature per violated property (stable under combinations); otherwise the kind of divergence
+    from the muxer model (operation not the queued one / content / directory)."""
     w = [re.sub(r"\d+", "", x) for x in why]
     if not w:
-        return "unknown"
+        return ["unknown"]
     inv = [x for x in w if not x.startswith(("Op:", "Content:", "Dir:", "Call:", "Panic"))]
     if inv:
-        return "Inv:" + "+".join(inv)
-    return w[0]
+        return ["Inv:" + x for x in inv]
+    return [w[0]]
 
 
 def run(ctx):
+    if os.environ.get("VERIF_WORK"):
+        # private scratch directory (several tasks share /verif/.work while the framework is being built)
+        ctx.work = os.path.join(os.environ["VERIF_WORK"], os.path.basename(ctx.work))
+        os.makedirs(ctx.work, exist_ok=True)
     E.build_harness(ctx, tags="verif,verif_hls")
     scen, seen = [], set()
 
@@ -90,11 +96,13 @@ def run(ctx):
     for r in rej:
         w = why.get((r["sc"], r["line"]), [])
         ev = r["event"]
-        E.report(ctx, signature(w),
-                 "trace rejected (%s) at line %d of scenario %s, event %s" %
-                 (", ".join(w) or "?", r["line"], r["sc"], json.dumps({k: ev[k] for k in ev if k not in ("dts", "dpl")})[:400]),
-                 {"scenario": scen[r["sc"]] if r["sc"] is not None and r["sc"] < len(scen) else None,
-                  "why": w, "trace": r["trace"][:r["line"] + 1]})
+        for sig in signatures(w):
+            E.report(ctx, sig,
+                     "trace rejected (%s) at line %d of scenario %s, event %s" %
+                     (", ".join(w) or "?", r["line"], r["sc"],
+                      json.dumps({k: ev[k] for k in ev if k not in ("dts", "dpl")})[:400]),
+                     {"scenario": scen[r["sc"]] if r["sc"] is not None and r["sc"] < len(scen) else None,
+                      "why": w, "trace": r["trace"][:r["line"] + 1]})
     ctx.assumptions += ["independent m3u8 / TS-segment readers in harness/proj/m3u8.go",
                         "os.WriteFile is create-with-truncation ; write ; close (the recording layer splits it so)",
                         "frames reach the muxer as Rtmp2MpegtsRemuxer delivers them: a video boundary frame is a "
